@@ -12,7 +12,7 @@ SEQ = {
  'C04': ("as C02 for error propagation (payload identity through every operator), retry / retry_when / on_error_resume_next over sources whose k-th subscription behaves differently, materialize/dematerialize", '6 C04'),
  'C05': ("as C01 with the unsubscribe monitor: nothing whose emission started after unsubscribe() returned is delivered, second unsubscribe / unsubscribe after terminal is a no-op, is_subscribed() follows the subscription's life; unsubscribe issued at every position, also from inside the subscriber's callback (single-thread part; the cross-thread part is decided with C19's machinery)", '6 C05'),
  'C06': ("as C01 with the teardown monitor: once the subscription ended every instrumented source sees is_subscribed()==false at its next attempt, no subject keeps an observer, endless producers stop", '6 C06'),
- 'C07': ("single-thread part: as C01 with the verdict monitor (every stimulus returns: no self-deadlock, no exhausted step budget) over every group, plus the re-entrancy matrix (every operator over every subject type x subscriber callbacks that unsubscribe themselves / emit into / subscribe to the subject they are called from); the L1 model predicts each same-thread deadlock through its held-lock stack and the runtime confirms it. The multi-thread part (lock-order deadlocks among up to 4 threads) is being added to this check", '6 C07'),
+ 'C07': ("single-thread part: as C01 with the verdict monitor (every stimulus returns: no self-deadlock, no exhausted step budget) over every group, plus the re-entrancy matrix (every operator over every subject type x subscriber callbacks that unsubscribe themselves / emit into / subscribe to the subject they are called from); the L1 model predicts each same-thread deadlock through its held-lock stack and the runtime confirms it. Multi-thread part: a catalogue of 57 (quick) concurrent scenarios - every operator that owns shared state fed by two emitters with a subscribing and an unsubscribing thread (4 threads), the racing-terminal / conservation / subject / scheduler / hand-off cases of C19, C11, C12, C08, C09, C05 - is executed under every schedule within the preemption bound; a run in which a thread is blocked forever on a lock (or the step budget is exhausted) is rejected by TLC's trace validation; TLC's deadlock check runs on the lock-level model SchedQueue", '6 C07'),
  'C10': ("as C01 with the four subject automata of the statement as L2 (per-observer deliveries per call, hand-over of history to late joiners, registered-observer count after every call), all call sequences over {subscribe_i, unsubscribe_i, next, error, complete}", '6 C10'),
  'C13': ("as C01 with the connectable monitor: the source is subscribed only at connect / first subscriber, never twice at a time, released by disconnect / last leaver (source sees is_subscribed()==false), every present subscriber sees the same items, replay hands every subscriber the whole sequence once", '6 C13'),
  'C14': ("as C02 with 2 subscribers of the same Observable value (sequentially over cold sources whose k-th subscription differs, interleaved on hot sources): every subscriber must see the definition's output for its own input, and tap side effects fire for every subscription", '6 C14'),
